@@ -74,18 +74,25 @@ def run_config(cfg):
         e.prove(len(names) == powers.shape[0], "names/count")
         for j, nm in enumerate(names[: powers.shape[0]]):
             e.prove(_parse_name(nm, n) == [int(p) for p in powers[j]], f"name")
-        X = e.reals("x", 2, n)
-        out = est.transform(X)
-        e.prove(out.shape == (2, powers.shape[0]), "shape")
-        if out.shape != (2, powers.shape[0]):
-            return
-        for r in range(2):
-            for j in range(powers.shape[0]):
-                mono = 1
-                for i in range(n):
-                    for _ in range(int(powers[j, i])):
-                        mono = mono * X[r, i]
-                e.prove_eq(out[r, j], mono, "cell", detail=(r, j))
+        # two calls in a row (history): the second batch must be transformed like the first
+        for call in range(2):
+            X = e.reals("x" if call == 0 else "z", 2, n)
+            out = est.transform(X)
+            tag = "" if call == 0 else "/second-call"
+            e.prove(out.shape == (2, powers.shape[0]), "shape" + tag)
+            if out.shape != (2, powers.shape[0]):
+                return
+            for r in range(2):
+                for j in range(powers.shape[0]):
+                    mono = 1
+                    for i in range(n):
+                        for _ in range(int(powers[j, i])):
+                            mono = mono * X[r, i]
+                    got = out[r, j]
+                    if got is None or not (sx.is_sym(got) or isinstance(got, (int, float, Fraction))):
+                        e.prove(False, "cell-never-written" + tag, detail=(r, j))
+                    else:
+                        e.prove_eq(got, mono, "cell" + tag, detail=(r, j))
 
     eng = sx.Engine(name=f"C11{cfg}")
     eng.explore(h)
@@ -116,11 +123,20 @@ def replay(cfg, inputs, label):
         for i in range(n):
             X[r, i] = float(inputs.get(f"x_{r}_{i}", Fraction(1, 2)))
     # make every monomial distinguishable
-    if label != "cell":
+    if not label.startswith("cell"):
         X = numpy.array([[2.0 + i for i in range(n)], [3.0 + 2 * i for i in range(n)]])
     try:
         est.fit(X)
         got = est.transform(X)
+        if label.endswith("/second-call"):
+            Z = X.copy()
+            for r in range(2):
+                for i in range(n):
+                    if f"z_{r}_{i}" in inputs:
+                        Z[r, i] = float(inputs[f"z_{r}_{i}"])
+            X = Z + 0.25
+            keep = [got, numpy.full((64, 64), 7.5)]  # keep the first result alive
+            got = est.transform(X)
         names = est.get_feature_names_out()
     except Exception as e:
         return True, f"raised {type(e).__name__}: {e}"
